@@ -12,7 +12,7 @@ use std::io::{self, Read, Write};
 
 /// One simulated half-duplex byte stream. Every call draws its behaviour from the script.
 pub struct SimPipe {
-    buf: VecDeque<u8>,
+    pub buf: VecDeque<u8>,
     rng: Rng,
     pub eintr_pct: u64,
     pub frag: u64, // 0 = whole, 1 = tiny fragments, 2 = random
